@@ -3,6 +3,7 @@ import sympy as sp
 from vc import core, propkit, alg
 from vc.values import *
 from contracts import hydro
+from props import riemann_kit as rk
 
 LEVEL = 'proof'
 EXPLANATION = ("Obligations: mass, momentum and energy residuals (energy including the heat-flux term F=-(c*lambda0/3) rho^alpha T^beta d(aT^4)/dr where the problem has one) "
@@ -79,9 +80,11 @@ def units(tier):
     for key, sc in hydro.SOLVERS.items():
         for case in sc.cases:
             us.append(('%s/%s' % (key, sc.case_name(case)), {'key': key, 'case': case, 'tier': tier}))
+    us += [(n, dict(k, tier=tier, riemann=True)) for n, k in rk.units('C01', ['fan_pde'], tier) if '/SCS/' not in n]
     return us
 
 
-def run_unit(name, key, case, tier):
+def run_unit(name, key=None, case=None, tier='quick', riemann=False, pat=None, fam=None):
+    if riemann: return rk.run_unit('C01', pat, fam, tier)
     sc = hydro.SOLVERS[key]
     return propkit.solver_unit(sc, case, per_path, tier)
